@@ -618,8 +618,7 @@ func (t *Transport) gsReqRecdHook(p peer.ID, request graphsync.RequestData, hook
 		}
 
 		// Lock the channel for the duration of this method
-		ch = t.trackDTChannel(chid)
-		ch.lk.Lock()
+		ch = t.lockTrackedDTChannel(chid)
 		defer ch.lk.Unlock()
 
 		request := msg.(datatransfer.Request)
@@ -633,8 +632,7 @@ func (t *Transport) gsReqRecdHook(p peer.ID, request graphsync.RequestData, hook
 		log.Debugf("%s: received request for data (push), req_id=%d", chid, request.ID())
 
 		// Lock the channel for the duration of this method
-		ch = t.trackDTChannel(chid)
-		ch.lk.Lock()
+		ch = t.lockTrackedDTChannel(chid)
 		defer ch.lk.Unlock()
 
 		response := msg.(datatransfer.Response)
@@ -908,6 +906,23 @@ func (t *Transport) trackDTChannel(chid datatransfer.ChannelID) *dtChannel {
 	}
 
 	return ch
+}
+
+// lockTrackedDTChannel returns the tracked channel for chid with its lock held.
+// A channel object that was cleaned up between the lookup and the lock is no
+// longer tracked by the transport: look the channel up again, so that the
+// caller never registers a graphsync request on a removed channel object
+func (t *Transport) lockTrackedDTChannel(chid datatransfer.ChannelID) *dtChannel {
+	for {
+		ch := t.trackDTChannel(chid)
+		ch.lk.Lock()
+		select {
+		case <-ch.cleanedUp:
+			ch.lk.Unlock()
+		default:
+			return ch
+		}
+	}
 }
 
 func (t *Transport) getDTChannel(chid datatransfer.ChannelID) (*dtChannel, error) {
